@@ -1330,6 +1330,7 @@ type c30FreeLog struct {
 	bad      []string
 	execs    int
 	payload  map[string]string
+	hang     chan struct{} // non-nil: executions hang until it is closed, then fail
 }
 
 type c30FreeExec struct{ l *c30FreeLog }
@@ -1337,6 +1338,13 @@ type c30FreeExec struct{ l *c30FreeLog }
 func (e c30FreeExec) Name() string { return "verif-free" }
 func (e c30FreeExec) Exec(t persistedretry.Task) error {
 	k := c30TaskKey(t)
+	e.l.mu.Lock()
+	hang := e.l.hang
+	e.l.mu.Unlock()
+	if hang != nil {
+		<-hang
+		return errors.New("interrupted")
+	}
 	e.l.mu.Lock()
 	defer e.l.mu.Unlock()
 	e.l.execs++
@@ -1440,7 +1448,43 @@ func c30FreeRun(env *c30Env, tr *verifh.T, c verifh.Case) {
 			}
 			added[op[2]] = true
 			tr.Op(op[1:], "ok")
+		case op[1] == "backlog" && len(op) == 4 && (op[3] == "hung" || op[3] == "failonce"):
+			// a large backlog: n tasks added while the executor hangs (or fails each task once); the rows
+			// pile up pending / failed in the table
+			n, err := strconv.Atoi(op[2])
+			if err != nil || n < 1 || n > 4000 {
+				continue
+			}
+			if op[3] == "hung" {
+				l.mu.Lock()
+				l.hang = make(chan struct{})
+				l.mu.Unlock()
+			}
+			for i := 0; i < n; i++ {
+				k := c30KeyTok(100 + i)
+				if added[k] {
+					continue
+				}
+				task := c30NewTask(cfg.store, 100+i, 0)
+				l.mu.Lock()
+				if op[3] == "failonce" {
+					l.failLeft[k] = 1
+				}
+				l.payload[k] = c30Payload(task)
+				l.mu.Unlock()
+				if err := m.Add(task); err != nil {
+					tr.PropFail("add-failed", verifh.Str(err.Error()))
+				}
+				added[k] = true
+			}
+			tr.Op(op[1:], "ok")
 		case op[1] == "restart" && len(op) == 2:
+			l.mu.Lock()
+			if l.hang != nil {
+				close(l.hang) // the hung executions end with an error; the new process has a healthy executor
+				l.hang = nil
+			}
+			l.mu.Unlock()
 			m.Close()
 			db.Close()
 			if !open() {
@@ -1452,8 +1496,14 @@ func c30FreeRun(env *c30Env, tr *verifh.T, c verifh.Case) {
 			tr.Op(op[1:], "ok")
 		}
 	}
+	l.mu.Lock()
+	if l.hang != nil {
+		close(l.hang)
+		l.hang = nil
+	}
+	l.mu.Unlock()
 	deadline := time.Now().Add(60 * time.Second)
-	for s.table() != "-" {
+	for s.nrows() != 0 {
 		if time.Now().After(deadline) {
 			tr.PropFail("never-completed", "t="+s.table())
 			c30FreeStuck++
@@ -1511,6 +1561,16 @@ func TestVerif_C30Free(t *testing.T) {
 	}
 	if replayOnly {
 		return
+	}
+	// a restart with a backlog of more than 1000 stored tasks: all of them are retried to success
+	backlogs := [][]string{{"1100", "hung"}}
+	if verifh.Thorough() {
+		backlogs = append(backlogs, []string{"1000", "hung"}, []string{"1001", "hung"}, []string{"2500", "hung"}, []string{"1100", "failonce"}, []string{"2500", "failonce"})
+	}
+	for _, b := range backlogs {
+		cfg := c30Cfg{store: "wb", capIn: 0, capRe: 0, wIn: 0, wRe: 0, ri: 0}
+		c30FreeRun(env, tr, verifh.Case{Cfg: cfg.toks(), Ops: [][]string{{"op", "backlog", b[0], b[1]}, {"op", "restart"}}})
+		tr.Count("backlog_cases", 1)
 	}
 	r := verifh.NewRand(verifh.Seed(), "c30free")
 	for i := 0; i < verifh.Scale(60, 1500); i++ {
